@@ -121,7 +121,28 @@ fn lz() -> (&'static str, &'static str) {
 
 /// Closures passed to spans that are not recording must not be invoked.
 fn lazy_workload(tag: &str) {
-    let root = Span::root(format!("{}-root", tag), SpanContext::new(TraceId(0x77), SpanId(7))).with_property(lz);
+    lazy_workload_ctx(tag, SpanContext::new(TraceId(0x77), SpanId(7)));
+}
+
+/// contexts / elapsed() that were `Some` although no span can be recording
+static SOMES: AtomicUsize = AtomicUsize::new(0);
+
+fn lazy_workload_ctx(tag: &str, ctx: SpanContext) {
+    let root = Span::root(format!("{}-root", tag), ctx).with_property(lz);
+    {
+        let some = |b: bool| {
+            if b {
+                SOMES.fetch_add(1, Ordering::SeqCst);
+            }
+        };
+        some(root.elapsed().is_some());
+        some(SpanContext::from_span(&root).is_some());
+        let _g = root.set_local_parent();
+        some(SpanContext::current_local_parent().is_some());
+        let c = Span::enter_with_local_parent("lazy-ctx-child").with_property(lz);
+        some(c.elapsed().is_some());
+        some(SpanContext::from_span(&c).is_some());
+    }
     let child = Span::enter_with_parent("lazy-child", &root).with_property(lz).with_properties(|| [lz()]);
     let multi = Span::enter_with_parent("lazy-of-noop", &Span::noop()).with_property(lz);
     root.add_property(lz);
@@ -326,7 +347,17 @@ fn main() {
             // no reporter yet: every span is a no-op span
             lazy_workload("pre");
             std::thread::spawn(|| lazy_workload("pre-thread")).join().unwrap();
+            // the same with contexts that are not sampled: still no reporter, still no-op spans
+            lazy_workload_ctx("pre-unsampled", SpanContext::new(TraceId(0x78), SpanId(8)).sampled(false));
+            if let Some(c) = SpanContext::decode_w3c_traceparent("00-000000000000000000000000000000aa-00000000000000bb-00") {
+                lazy_workload_ctx("pre-decoded-unsampled", c);
+                std::thread::spawn(move || lazy_workload_ctx("pre-thread-unsampled", c)).join().unwrap();
+            }
             let pre = LAZY.load(Ordering::SeqCst);
+            let somes = SOMES.load(Ordering::SeqCst);
+            if somes != 0 {
+                panic!("{} context / elapsed() results were Some before a reporter was installed (no span can be recording)", somes);
+            }
             let rep = install(false);
             // local operations without a local parent, spans derived from no-op spans
             let noop = Span::noop();
